@@ -18,6 +18,8 @@ pub struct FsKnobs {
     pub regime: ClockRegime,
     pub clock_seed: u64,
     pub base: Ts,
+    /// permille of reads/writes cut short (legal kernel behaviour)
+    pub short_io: u64,
 }
 
 impl FsKnobs {
@@ -26,7 +28,7 @@ impl FsKnobs {
         self.gran_ns == 1 && matches!(self.regime, ClockRegime::Micros | ClockRegime::Millis | ClockRegime::Seconds)
     }
     pub fn describe(&self) -> String {
-        format!("gran={}ns atime={:?} readdir_batch={} clock={:?}", self.gran_ns, self.atime, self.batch, self.regime)
+        format!("gran={}ns atime={:?} readdir_batch={} clock={:?} short_io={}", self.gran_ns, self.atime, self.batch, self.regime, self.short_io)
     }
 }
 
@@ -39,6 +41,7 @@ pub fn draw_knobs(t: &mut Tape) -> FsKnobs {
     let clock_seed = t.draw(1 << 32);
     // base time: seeded, second-aligned or not
     let base = BASE_TIME + (t.draw(1_000_000) as i64) * 1_000_003;
+    let short_io = *t.pick(&[0u64, 0, 300]);
     FsKnobs {
         gran_ns,
         atime,
@@ -47,6 +50,7 @@ pub fn draw_knobs(t: &mut Tape) -> FsKnobs {
         regime,
         clock_seed,
         base,
+        short_io,
     }
 }
 
@@ -106,6 +110,7 @@ impl World {
             let mut st = sim.lock();
             st.clock_rng = Rng64::new(kn.clock_seed);
             st.clock_regime = kn.regime;
+            st.short_io = kn.short_io;
             let mut writable: Vec<String> = dirs.iter().map(|d| d.path.clone()).collect();
             writable.push(SCRATCH.to_string());
             writable.push("/tmp".to_string());
